@@ -15,7 +15,7 @@
 From Coq Require Import ZArith List Bool.
 From V Require Import Result LazyTree World WorldGuard WorldRun ForestDefs InvDefs WorldInv WorldProps.
 From V Require SetOpsProofs ModListProofs SymxProofs.
-From V Require Import SeqOps SetAlg.
+From V Require Import SeqOps SetAlg IndexCheck.
 From V Require SeqOpsProofs SetAlgProofs AggregateProofs MoveAllProofs MoveAllSets.
 From Coq Require Import Sorted.
 Import ListNotations.
@@ -250,6 +250,21 @@ Proof.
   exists w'. split; [exact E|]. rewrite Hfold.
   pose proof (MoveAllProofs.extend_rotate (kids w ir) [] ) as Hr. rewrite app_nil_r in Hr. cbn [app] in Hr.
   apply Hr. exact (f_nodup w known (reach_forest w known R) ir).
+Qed.
+
+(* insert(i, v) / pop(i): the index is converted to a machine word FIRST, as list does -- OverflowError outside [-2^63, 2^63), and
+   nothing has been touched (fix 74ce526: the ownership hooks used to run before the backing list raised) *)
+Theorem C16_modlist_index_checked_first : forall w o,
+  (forall ir i v, o = OModInsert ir i v -> fits_ssize i = false -> step_checked w o = Err EOverflow) /\
+  (forall ir i, o = OModPop ir i -> fits_ssize i = false -> step_checked w o = Err EOverflow) /\
+  (match o with OModInsert _ i _ | OModPop _ i => fits_ssize i = true | _ => True end -> step_checked w o = step w o) /\
+  (forall i, fits_ssize i = true <-> - 2 ^ 63 <= i < 2 ^ 63).
+Proof.
+  intros w o. split; [|split; [|split]].
+  - intros ir i v E H. subst o. unfold step_checked. rewrite H. reflexivity.
+  - intros ir i E H. subst o. unfold step_checked. rewrite H. reflexivity.
+  - destruct o; intros H; try reflexivity; unfold step_checked; rewrite H; reflexivity.
+  - intros i. unfold fits_ssize. rewrite andb_true_iff, Z.leb_le, Z.ltb_lt. tauto.
 Qed.
 
 (* remove(v): ValueError exactly when v is not in the list *)
@@ -620,6 +635,7 @@ Print Assumptions C16_modlist_insert.
 Print Assumptions C16_modlist_extend.
 Print Assumptions C16_modlist_extend_all_of_another.
 Print Assumptions C16_modlist_extend_self.
+Print Assumptions C16_modlist_index_checked_first.
 Print Assumptions C16_modlist_remove.
 Print Assumptions C16_modlist_pop_delitem.
 Print Assumptions C16_modlist_delslice.
